@@ -295,52 +295,10 @@ pub fn run(spec: &SweepSpec, subject: &dyn Subject, oracle: &dyn Oracle) -> Swee
     let mut per_level: Vec<Value> = vec![];
     let property = oracle.property();
 
-    // ---- skeleton levels
-    for level in &spec.levels {
-        if stop.load(Ordering::Relaxed) {
-            incomplete.get_or_insert(level.name.clone());
-            break;
-        }
-        let next = AtomicUsize::new(0);
-        let lvl_start = Instant::now();
-        let lvl_inputs = AtomicUsize::new(0);
-        std::thread::scope(|sc| {
-            for _ in 0..spec.threads {
-                sc.spawn(|| {
-                    let mut acc = Acc::default();
-                    loop {
-                        if start.elapsed() > spec.wall_cap {
-                            stop.store(true, Ordering::Relaxed);
-                        }
-                        if stop.load(Ordering::Relaxed) {
-                            break;
-                        }
-                        let i = next.fetch_add(1, Ordering::Relaxed);
-                        if i >= level.skeletons.len() {
-                            break;
-                        }
-                        let before = acc.inputs;
-                        skeleton_unit(spec, level, &level.skeletons[i], subject, oracle, property, &mut acc, &stop, start);
-                        lvl_inputs.fetch_add((acc.inputs - before) as usize, Ordering::Relaxed);
-                    }
-                    merge(&mut total.lock().unwrap(), acc, 8);
-                });
-            }
-        });
-        let done = !stop.load(Ordering::Relaxed);
-        per_level.push(json!({
-            "level": level.name, "skeletons": level.skeletons.len(), "dev1_forms": level.dev1.len(), "dev2_forms": level.dev2.len(),
-            "wellformed_inputs": lvl_inputs.load(Ordering::Relaxed), "completed": done, "wall_s": lvl_start.elapsed().as_secs_f64()
-        }));
-        if done {
-            completed.push(level.name.clone());
-        } else {
-            incomplete = Some(level.name.clone());
-            break;
-        }
-    }
-    // ---- extra levels
-    for level in &spec.extra {
+    // ---- extra levels (free-standing families) first, smallest first: a wall cap then cuts the big skeleton levels
+    let mut extras: Vec<&ExtraLevel> = spec.extra.iter().collect();
+    extras.sort_by_key(|l| l.inputs.len());
+    for level in extras {
         if stop.load(Ordering::Relaxed) {
             incomplete.get_or_insert(level.name.clone());
             break;
@@ -401,6 +359,50 @@ pub fn run(spec: &SweepSpec, subject: &dyn Subject, oracle: &dyn Oracle) -> Swee
         }
     }
 
+    // ---- skeleton levels
+    for level in &spec.levels {
+        if stop.load(Ordering::Relaxed) {
+            incomplete.get_or_insert(level.name.clone());
+            break;
+        }
+        let next = AtomicUsize::new(0);
+        let lvl_start = Instant::now();
+        let lvl_inputs = AtomicUsize::new(0);
+        std::thread::scope(|sc| {
+            for _ in 0..spec.threads {
+                sc.spawn(|| {
+                    let mut acc = Acc::default();
+                    loop {
+                        if start.elapsed() > spec.wall_cap {
+                            stop.store(true, Ordering::Relaxed);
+                        }
+                        if stop.load(Ordering::Relaxed) {
+                            break;
+                        }
+                        let i = next.fetch_add(1, Ordering::Relaxed);
+                        if i >= level.skeletons.len() {
+                            break;
+                        }
+                        let before = acc.inputs;
+                        skeleton_unit(spec, level, &level.skeletons[i], subject, oracle, property, &mut acc, &stop, start);
+                        lvl_inputs.fetch_add((acc.inputs - before) as usize, Ordering::Relaxed);
+                    }
+                    merge(&mut total.lock().unwrap(), acc, 8);
+                });
+            }
+        });
+        let done = !stop.load(Ordering::Relaxed);
+        per_level.push(json!({
+            "level": level.name, "skeletons": level.skeletons.len(), "dev1_forms": level.dev1.len(), "dev2_forms": level.dev2.len(),
+            "wellformed_inputs": lvl_inputs.load(Ordering::Relaxed), "completed": done, "wall_s": lvl_start.elapsed().as_secs_f64()
+        }));
+        if done {
+            completed.push(level.name.clone());
+        } else {
+            incomplete = Some(level.name.clone());
+            break;
+        }
+    }
     let acc = total.into_inner().unwrap();
     let mut samples: Vec<(u64, Value)> = acc.samples;
     samples.sort_by_key(|s| s.0);
@@ -623,7 +625,7 @@ fn skeleton_unit(
                 }
                 add_failure(&mut acc.failures, Failure {
                     property: property.into(),
-                    signature: format!("{}|{}|dev={}", property, fl.clause, sig),
+                    signature: format!("{}|{}|dev={}|at={}", property, fl.clause, sig, desc),
                     clause: fl.clause,
                     input: text.clone(),
                     cfg: Some(cfg),
@@ -676,7 +678,7 @@ fn skeleton_unit(
                         }
                         add_failure(&mut acc.failures, Failure {
                             property: property.into(),
-                            signature: format!("{}|{}|dev={}&dev={}", property, fl.clause, sa, sb),
+                            signature: format!("{}|{}|dev={}&dev={}|at={}", property, fl.clause, sa, sb, desc),
                             clause: fl.clause,
                             input: text.clone(),
                             cfg: Some(cfg),
